@@ -168,7 +168,8 @@ def checkRegion (r : DRegion) (exempt : Nat → Nat → Bool := fun _ _ => false
     if (r.segs.zipIdx).any (fun (s, i) => (r.segs.take i).any (fun p =>
         overlapsWith o s p && (!s.fixed || !p.fixed) && !gapOfPre o p s)) then
       return out.div s!"{tag}: UnsignedPair assertion (same connector, common-end lookup) fails in the model but the implementation went on"
-    let st0 : NState := ⟨r.base, cons0.map (flat r.segs), []⟩
+    -- every region starts from the model's own start state (Props/C10Region.first_attempt_uses_base_distance)
+    let st0 : NState := initState o r.segs
     for c in cons0 do
       out := out.stat (match c with
         | .sep _ _ g e => if e then "region.con.equality" else if g == 0 then "region.con.zero-gap" else "region.con.separation"
